@@ -128,6 +128,7 @@ def parseLine (d : DSt) (ts : List String) : Parsed :=
       else if k = "cn1" then { (nop "notify") with syncNames := addSync d.syncNames m }
       else if k = "prd" then mk m (fun x => .rd x) "payload" false
       else if k = "pwr" then mk m (fun x => .wr x) "payload" false
+      else if (k = "pld" ∨ k = "pst") ∧ d.syncNames.contains m then nop "shim-internal"
       else if k = "pld" then mk m (fun x => .rd x) "tap" false      -- wide access: no value printed
       else if k = "pst" then mk m (fun x => .wr x) "tap" false
       else if vocabulary.contains k then bad "malformed-event"
@@ -141,8 +142,12 @@ def parseLine (d : DSt) (ts : List String) : Parsed :=
   | ["cna", cv] => { (nop "notify") with syncNames := addSync d.syncNames cv }
   | ["yld"] => nop "yield"
   | ["slp"] => nop "yield"
-  | ["pld", x, _, _] => mk x (fun x => .rd x) "tap" false
-  | ["pst", x, _, _] => mk x (fun x => .wr x) "tap" false
+  -- an atomic that lives inside a tapped heap block (rcu_list nodes / records): the tap also sees the shim's own access
+  -- to the atomic's storage, next to the `ald`/`ast`/`cas` line.  Once a location has been used atomically its storage
+  -- is only ever touched by atomic operations, so those echoes are dropped; the plain INITIALISING writes of the
+  -- constructor (before the first atomic use) stay and are race-checked like any plain write.
+  | ["pld", x, _, _] => if d.syncNames.contains x then nop "shim-internal" else mk x (fun x => .rd x) "tap" false
+  | ["pst", x, _, _] => if d.syncNames.contains x then nop "shim-internal" else mk x (fun x => .wr x) "tap" false
   | [] => bad "empty"
   | k :: args =>
       if vocabulary.contains k then bad "malformed-event"
